@@ -5,7 +5,7 @@ R = '/verif'
 man = json.load(open(R + '/MANIFEST.json'))
 kf = json.load(open(R + '/known_findings.json'))
 seeds = {}
-for m in sorted(glob.glob(R + '/seeded/*/meta.json')):
+for m in sorted(glob.glob(R + '/seeded/C*/meta.json')):
     d = json.load(open(m)); seeds.setdefault(d['property'], []).append((os.path.basename(os.path.dirname(m)), d['check']['caught'], 'history' in d))
 fixed = {}
 for f in kf['fixed']:
